@@ -651,7 +651,7 @@ valid_pil_lto_to_time		(vbi_pil		pil,
 
 	if (seconds_east < 0) {
 		/* Note start can be negative. */
-		if (unlikely (start < -seconds_east)) {
+		if (unlikely (start < TIME_MIN - seconds_east)) {
 			errno = EOVERFLOW;
 			return (time_t) -1;
 		}
@@ -687,7 +687,7 @@ valid_pil_lto_to_time		(vbi_pil		pil,
 
 	if (seconds_east > 0) {
 		/* Note start can be negative. */
-		if (unlikely (start < seconds_east)) {
+		if (unlikely (start < TIME_MIN + seconds_east)) {
 			errno = EOVERFLOW;
 			return (time_t) -1;
 		}
@@ -1119,7 +1119,7 @@ valid_pil_lto_validity_window	(time_t *		begin,
 	}
 
 	if (VBI_PIL_HOUR (pil) < 4) {
-		if (unlikely (t < 4 * 60 * 60)) {
+		if (unlikely (t < TIME_MIN + 4 * 60 * 60)) {
 			errno = EOVERFLOW;
 			return FALSE;
 		}
